@@ -37,7 +37,8 @@ func (c agentCall) String() string {
 func allAgentCalls() []agentCall {
 	var out []agentCall
 	for _, ep := range []string{"pending", "request", "response"} {
-		for _, who := range []string{"", a1, a2, u1, "admin@example.com"} {
+		// look-alike identities: a suffix, a prefix, another case, an extra space, a list containing the right one
+		for _, who := range []string{"", a1, a2, u1, "admin@example.com", "gent1@example.com", "1@example.com", "agent1@example.co", "AGENT1@example.com", "agent1@example.com ", "x,agent1@example.com", "xagent1@example.com"} {
 			for _, b := range []string{"b1", "b2", "nope", ""} {
 				for _, r := range []string{"R1", "R2", "unknown", ""} {
 					if ep == "pending" && r != "" {
